@@ -1,11 +1,15 @@
 ---------------------------- MODULE Trace_SepProcess ----------------------------
-(* Trace validation for C11.  The log is written by harness/sepproc.cpp, one line per step of the parent:
-     begin (n, tty), teststart (i, act, arg), fork (res, nfail), wait (out, arg, nfail), endtest (msgs, waits, conts, left),
-     end (total, ran, failed)
+(* Trace validation for C11.  The log is written by harness/sepproc.cpp, one line per call on the registry and per step of
+   the parent:
+     addtest (kind), setsep, setri,
+     begin (n, tty), teststart (i, kind, act, arg), fork (res, nfail), wait (out, arg, nfail),
+     endtest (msgs, waits, conts, left, inrunner), end (total, ran, ign, failed)
    where fork/wait lines carry the outcome the parent was given (scripted by the stubs, or observed from the real
    kernel) and `nfail' = failures recorded for the test before that call; `msgs' are the failures recorded for the test,
    classified from their text (kind "other" = unknown wording, only counted); `conts' = SIGCONTs the harmless child
-   received (-1 = not observable, real forks).  The log must be a behaviour of SepProcess: every parent step allowed,
+   received (-1 = not observable, real forks); `n' = tests the registry holds at the start of the run, `kind' = kind of the
+   test the registry started (from its class), `inrunner' = some code of the test (plugin action, setup, body, teardown)
+   executed in the runner process, `ign' = tests counted as ignored.  The log must be a behaviour of SepProcess: every parent step allowed,
    the outcomes compatible with the child's behaviour (real forks), and every observation equal to the specification's. *)
 EXTENDS SepProcess, Json, IOUtils
 VARIABLE l
@@ -19,6 +23,7 @@ MsgOK(m, f) == m.kind \in {"other", f.kind} /\ (m.kind = "signal" => m.arg = f.a
 EndObs == /\ Len(E.msgs) = Len(tfail) /\ \A i \in 1..Len(tfail) : MsgOK(E.msgs[i], tfail[i])
           /\ E.waits = waits /\ E.conts \in {-1, conts}
           /\ E.left = 0                      \* no child left behind un-reaped (running, stopped or zombie)
+          /\ E.inrunner = (where = "runner") \* where the test executed: never in the runner in a separate-process run
 
 WaitBy(o, a) == \/ o = "eintr" /\ WaitEintr
                 \/ o = "error" /\ WaitError
@@ -28,20 +33,26 @@ WaitBy(o, a) == \/ o = "eintr" /\ WaitEintr
 ForkBy(r) == (r = "ok" /\ ForkOk) \/ (r = "fail" /\ ForkFail)
 
 TInit == Init /\ l = 1
-TNext == \/ Is("begin") /\ Begin(E.n, E.tty)
-         \/ Is("teststart") /\ StartTest([act |-> E.act, arg |-> E.arg]) /\ E.i = ti'
+TNext == \/ Is("addtest") /\ AddTest(E.kind)
+         \/ Is("setsep") /\ (IF sep THEN UNCHANGED vars ELSE SetSep)
+         \/ Is("setri") /\ (IF ri THEN UNCHANGED vars ELSE SetRunIgnored)
+         \/ Is("begin") /\ Begin(E.tty) /\ E.n = Len(tests)
+         \/ Is("teststart") /\ StartTest([act |-> E.act, arg |-> E.arg]) /\ E.i = ti' /\ E.kind = tests[ti']
          \/ Is("fork") /\ SoFar /\ ForkBy(E.res)
          \/ Is("wait") /\ SoFar /\ WaitBy(E.out, E.arg)
          \/ Is("endtest") /\ EndTest /\ EndObs
-         \/ Is("end") /\ End /\ E.total = total /\ E.ran = ran /\ E.failed = (total > 0)
-TReset == /\ Is("reset") /\ pc' = "idle" /\ n' = 0 /\ ti' = 0 /\ beh' = NoBeh /\ retries' = 0 /\ stops' = 0 /\ waits' = 0
+         \/ Is("end") /\ End /\ E.total = total /\ E.ran = ran /\ E.ign = ign /\ E.failed = (total > 0)
+TReset == /\ Is("reset") /\ pc' = "idle" /\ sep' = FALSE /\ ri' = FALSE /\ tests' = <<>> /\ runs' = 0 /\ where' = "none" /\ ign' = 0 /\ n' = 0 /\ ti' = 0 /\ beh' = NoBeh /\ retries' = 0 /\ stops' = 0 /\ waits' = 0
           /\ conts' = 0 /\ tfail' = <<>> /\ ev' = <<>> /\ total' = 0 /\ ran' = 0 /\ plan' = AnyPlan /\ tty' = TRUE
 TSpec == TInit /\ [][TNext \/ TReset]_tvars
 Accepted == TLCGet("stats").diameter - 1 = Len(Tr)
-TInv == OncePerEvent /\ EventsAreFailures /\ StopsResumed /\ WaitsBounded /\ ChildNotLost /\ AllRun /\ RunCounts
+TInv == OncePerEvent /\ EventsAreFailures /\ Contained /\ StopsResumed /\ WaitsBounded /\ ChildNotLost /\ AllRun /\ RunCounts
 
 \* diagnostics: the same walk with the observations unbound, printing what the specification has after each line
-PNext == \/ Is("begin") /\ Begin(E.n, E.tty)
+PNext == \/ Is("addtest") /\ AddTest(E.kind)
+         \/ Is("setsep") /\ (IF sep THEN UNCHANGED vars ELSE SetSep)
+         \/ Is("setri") /\ (IF ri THEN UNCHANGED vars ELSE SetRunIgnored)
+         \/ Is("begin") /\ Begin(E.tty)
          \/ Is("teststart") /\ StartTest([act |-> E.act, arg |-> E.arg])
          \/ Is("fork") /\ ForkBy(E.res)
          \/ Is("wait") /\ WaitBy(E.out, E.arg)
@@ -49,6 +60,7 @@ PNext == \/ Is("begin") /\ Begin(E.n, E.tty)
          \/ Is("end") /\ End
 PSpec == TInit /\ [][PNext \/ TReset]_tvars
 Predict == (l > 1 /\ l - 1 >= atoi(IOEnv.FROM_LINE_N)) =>
-              PrintT(<<"BEH", ToJson([line |-> l - 1, pc |-> pc, test |-> ti, failures |-> tfail, waits |-> waits, conts |-> conts,
+              PrintT(<<"BEH", ToJson([line |-> l - 1, pc |-> pc, sep |-> sep, runIgnored |-> ri, tests |-> tests, run |-> runs, test |-> ti,
+                                      testExecutesIn |-> where, failures |-> tfail, waits |-> waits, conts |-> conts,
                                       retries |-> retries, total |-> total, ran |-> ran, childStillOwes |-> plan])>>)
 =============================================================================
